@@ -93,6 +93,7 @@ Fixpoint apply_pairs (pairs : smap) (entry : str) : str :=
 Section Orders.
 Variable ordp : list pname.             (* parseLine's pattern order *)
 Variable ords : smap -> smap.           (* iteration order of a map[string]string *)
+Variable ords2 : smap -> smap.          (* ... of the second loop of expandDefinitions (an independent iteration) *)
 Variable ordi : list (str * nat) -> list (str * nat).   (* iteration order of the inclusion-line map *)
 Variable limit : N.                     (* scanner limit of utils.NewLineScanner *)
 
@@ -241,7 +242,7 @@ Fixpoint parse (fuel : nat) (vars0 : smap) (contents : str) {struct fuel} : outc
   | [] => Ok r
   | vars =>
     let o := map fst (ords vars) in
-    let (d, v) := expand_definitions o o vars (r_dest r) in
+    let (d, v) := expand_definitions o (map fst (ords2 vars)) vars (r_dest r) in
     (* prefix and suffix lines live outside the buffer: each is expanded by a further call
        (which runs the definitions-in-definitions loop again on the same map) *)
     let expand_list :=
@@ -249,8 +250,7 @@ Fixpoint parse (fuel : nat) (vars0 : smap) (contents : str) {struct fuel} : outc
         match l with
         | [] => ([], v)
         | x :: l' =>
-          let o' := map fst (ords v) in
-          let (x', v') := expand_definitions o' o' v x in
+          let (x', v') := expand_definitions (map fst (ords v)) (map fst (ords2 v)) v x in
           let (rest, v'') := go l' v' in (x' :: rest, v'')
         end in
     let (pfx, v1) := expand_list (r_prefixes r) v in
